@@ -212,6 +212,10 @@ func (c *leaseClient) LeaseGrant(ctx context.Context, in *pb.LeaseGrantRequest, 
 		ttl = 1
 	}
 	l := s.grant(ttl)
+	if s.LeaseCreator == nil {
+		s.LeaseCreator = map[int64]string{}
+	}
+	s.LeaseCreator[l.id] = c.h.Class
 	return &pb.LeaseGrantResponse{Header: s.header(), ID: l.id, TTL: l.ttl}, nil
 }
 
